@@ -235,6 +235,52 @@ pub fn run(ctx: &Ctx) -> Report {
         });
         rep.merge(r);
     }
+    // ---- zero-length packets between commands (keep-alives of some proxies; not a command of the
+    //      protocol): the unchanged library gives up on the connection, a lenient one skips them. Either
+    //      way a command that arrived in the same read behind such a packet is answered before the
+    //      server waits again
+    let n = if ctx.miri { 2 } else { ctx.n(400, 6000) };
+    let r = par_cases(ctx, "C12", "zero-length-packets", n, |rng, i, rep| {
+        let mut cmds = Vec::new();
+        let mut scripts = Vec::new();
+        let some = |cmds: &mut Vec<Cmd>, scripts: &mut Vec<Script>, rng: &mut Rng, k: u64| match rng.below(3) {
+            0 => cmds.push(Cmd::ping()),
+            1 => {
+                cmds.push(Cmd::query(format!("q{}", k).as_bytes()));
+                scripts.push(Script::Q(QProg::completed(k, 0)));
+            }
+            _ => {
+                cmds.push(Cmd::init_db(b"db"));
+                scripts.push(Script::InitOk);
+            }
+        };
+        for k in 0..rng.below(3) {
+            some(&mut cmds, &mut scripts, rng, k);
+        }
+        for _ in 0..rng.range(1, 2) {
+            // (declared as a command without reply: that is what a skipped packet amounts to)
+            cmds.push(Cmd::new(Kind::Close, vec![]).seq(rng.below(4) as u8));
+        }
+        for k in 0..rng.range(1, 3) {
+            some(&mut cmds, &mut scripts, rng, 10 + k);
+        }
+        let mut case = Case::new(cmds, scripts);
+        case.arrival = Arrival::Pipelined(1);
+        if i % 3 == 2 {
+            let (input, _) = case.input();
+            let sk = *rng.pick(&[SchedKind::Boundaries, SchedKind::Random]);
+            case.sched = make_sched(rng, sk, &input);
+        }
+        let obs = run_case(&case);
+        rep.evaluations += 1;
+        rep.counters.class(format!("zero-length packet between commands, lock-step, sched {}", i % 3));
+        let d = || J::obj().set("commands", kinds_summary(&case.cmds)).set("note", "C in the command list is the zero-length packet").set("outcome", obs.outcome.describe());
+        if i < 2 {
+            rep.sample(d());
+        }
+        check(&obs, rep, &d);
+    });
+    rep.merge(r);
     // ---- a client of another character set: the text of a QUERY / `USE` / PREPARE / INIT_DB is not UTF-8
     //      (latin1 `caf\xe9`), sent in lock-step. The unchanged library gives up on the connection; a
     //      library that answers instead has to flush that answer before it waits for the next command
